@@ -1,1 +1,2 @@
 pub mod nfa;
+pub mod rules;
